@@ -7,6 +7,7 @@
   C_V is whatever the QHA layer supplies (a parameter `cv ≠ 0`).
 -/
 import CijProofs.Lemmas.NonShearCalculus
+import CijProofs.Lemmas.NonShearSource
 
 namespace Cij.C02
 
@@ -164,5 +165,18 @@ example : 0 < isoToAdiaAt 1 1 2 1 1 1 (mgLong (sliceOf [List.replicate 6 (invMod
 example : (calculate (κ := Nat) (β := Int)
     [.nonShear 11 5 7, .shear 44 (fun st => (st 11).getD 0 + 1)]).2 44 = some 6 := by
   decide
+
+/-! #### the model IS the source (bodies of `isothermal_to_adiabatic` and `value_adiabatic` re-extracted from nonshear.py
+on this run; see the corresponding section of `Properties/C01.lean`) -/
+
+open Cij.NSExpr in
+theorem c02_model_is_source (c : Consts ℝ) (w : List ℝ) (T P cv : ℝ) (s : VolSlice ℝ) (g : ModeGamma ℝ) (a b d e : ℝ) :
+    isoToAdiaAt c.k c.hdk c.na T s.V cv g s.freq w = evalBody (envAt c w T P cv s g a b d e) Generated.nsGapLong ∧
+    isoToAdiaAt c.k c.hdk c.na T s.V cv g s.freq w = evalBody (envAt c w T P cv s g a b d e) Generated.nsGapOff ∧
+    valueAdiabaticLongAt c w T cv s = evalBody (envAt c w T P cv s (mgLong s) a b (valueIsothermalLongAt c w T s)
+        (isoToAdiaAt c.k c.hdk c.na T s.V cv (mgLong s) s.freq w)) Generated.nsAdiaLong ∧
+    valueAdiabaticOffAt c w T P cv s = evalBody (envAt c w T P cv s (mgOff s) a b (valueIsothermalOffAt c w T P s)
+        (isoToAdiaAt c.k c.hdk c.na T s.V cv (mgOff s) s.freq w)) Generated.nsAdiaOff :=
+  ⟨rfl, rfl, rfl, rfl⟩
 
 end Cij.C02
